@@ -40,13 +40,13 @@ func (c *staleChain) IsStaleGroup(pk []byte) (bool, error) {
 
 var (
 	gOnce   sync.Once
-	gKeys   [4]*bn256.G2
+	gKeys   [5]*bn256.G2
 	gLogger = logging.Logger("verif-c38")
 )
 
 func gInit() {
 	logging.SetAllLoggers(logging.LevelFatal)
-	for w := 1; w <= 3; w++ {
+	for w := 1; w <= 4; w++ {
 		gKeys[w] = new(bn256.G2).ScalarBaseMult(big.NewInt(int64(w + 10)))
 	}
 }
@@ -75,7 +75,7 @@ func (r *grig) restart() {
 func (r *grig) snapshot() string {
 	var parts []string
 	odd := false
-	for w := 1; w <= 3; w++ {
+	for w := 1; w <= 4; w++ {
 		ms := r.reg.GetGroup(gSigner(w, 1, 0).GroupPublicKeyBytes())
 		var ss []string
 		for _, m := range ms {
@@ -126,7 +126,7 @@ func execGreg(f []string) (string, string) {
 			r.restart()
 		case st[0] == 'R' && (len(st) == 4 || len(st) == 5):
 			w, i, s := int(st[1]-'0'), int(st[2]-'0'), int(st[3]-'0')
-			if w < 1 || w > 3 || i < 1 || i > 9 || s < 0 || s > 4 {
+			if w < 1 || w > 4 || i < 1 || i > 9 || s < 0 || s > 4 {
 				return "bad-op", "bad"
 			}
 			fault := ""
@@ -163,7 +163,7 @@ func execGreg(f []string) (string, string) {
 			}
 		case st[0] == 'X' && (len(st) == 2 || len(st) == 3):
 			w := int(st[1] - '0')
-			if w < 1 || w > 3 {
+			if w < 1 || w > 4 {
 				return "bad-op", "bad"
 			}
 			fault := ""
